@@ -13,6 +13,18 @@ CHECKS = {
              'Exhaustive over all 1-op and 2-op scripts of the complete opcode alphabet (thorough), model-steered deep scripts, byte-level mutations for the refusal clause. Held on the executions observed, not a proof.',
         note='trusted: ref/script.py (written from the BIPs, anchored on chain data), the native harness only records public fields of Instance/InterpreterEnv; signature opcodes are covered by C02',
         ref='5 C01'),
+    'C17': dict(
+        technique='runtime monitoring: reference-function monitor over one-op Instance::step() traces, exhaustive over a boundary operand pool (ASan+UBSan build)',
+        text='Exploration, exhaustive over a fixed boundary pool: each of the 15 re-enabled opcodes is executed by the real interpreter (allow_disabled_opcodes on/off, executed / unexecuted branch) on every operand tuple of a 44-value pool '
+             '(thorough adds 640k random tuples); the result is compared with the string/bitwise/integer function the name denotes, invalid operands must give a script-level failure; crashes, traps and UB reports are violations.',
+        note='trusted: the reference functions in ref/script.py (exec_extended); leniencies listed in the evidence assumptions',
+        ref='5 C17'),
+    'C18': dict(
+        technique='runtime monitoring: exhaustive in-harness sweep of the script-number codec against an arithmetic definition',
+        text='Thorough tier is exhaustive over the finite domain the property names: all 2^32+2^24+2^16+2^8+1 byte strings of length 0..4 (lenient decode, strict-decode verdict, re-encode) and all 2^32+1 integers of [-2^31,2^31] '
+             '(encode, minimality, round trip), plus stratified 5-byte strings, int64 samples and Value()/tf int/tf hex samples. Quick tier: all strings of length <=3, 2^24 stratified 4-byte strings, boundary windows of integers (ASan+UBSan build).',
+        note='trusted: the 30-line arithmetic codec ref_decode/ref_minimal/ref_encode in harness/vharness.cpp, which shares no code with script/script.h',
+        ref='5 C18'),
 }
 
 NOT_YET = {}
